@@ -136,6 +136,13 @@ def generate(prop, seed, tier):
             ops.insert(pos + 1, {"op": "draw", "slot": si, "n": 20000, "rs": {"kind": "int", "seed": S.sub("after", si) % 1000}})
             if S.chance(0.5):
                 ops.insert(max(0, pos - 1), {"op": "draw", "slot": si, "n": S.pick([10, 2000]), "rs": {"kind": "int", "seed": 7}})
+    # the object is replaced by a deep copy of itself (users copy models); draws with explicit
+    # parameter overrides on single distributions (a rarely used entry point)
+    for si, sl in enumerate(slots):
+        if S.chance(0.15):
+            ops.insert(S.int(0, len(ops)), {"op": "clone", "slot": si})
+        if sl["kind"] == "dist" and S.chance(0.25):
+            ops.insert(S.int(0, len(ops)), {"op": "xdraw", "slot": si, "n": 20000, "params": _gen_params(S, sl["family"], wide=False), "as_kw": S.chance(0.5), "rs": {"kind": "int", "seed": S.sub("x", si) % 100000}})
     # direct draws from a conditional dimension with a vector of conditioning values: (n, len) draws
     for si, sl in enumerate(slots):
         if sl["kind"] == "model" and S.chance(0.5):
@@ -365,6 +372,25 @@ def _one_pass(scen, objs, which, on_draw=None):
             _mutate(scen["slots"][op["slot"]], obj, op)
             out.append(None)
             continue
+        if op["op"] == "clone":
+            import copy as _copy
+
+            objs[op["slot"]] = _copy.deepcopy(obj)
+            out.append(None)
+            continue
+        if op["op"] == "xdraw":
+            names = FAM[scen["slots"][op["slot"]]["family"]][0]
+            try:
+                if op["as_kw"]:
+                    x = obj.draw_sample(op["n"], random_state=int(op["rs"]["seed"]), **op["params"])
+                else:
+                    x = obj.draw_sample(op["n"], *[op["params"][nm] for nm in names], random_state=int(op["rs"]["seed"]))
+            except Exception as e:  # noqa: BLE001
+                raise DrawRaised(k, e)
+            out.append(np.asarray(x))
+            if on_draw is not None:
+                on_draw(k, op, out[-1])
+            continue
         rs = op["rs"]
         try:
             if op["op"] == "cdraw":
@@ -372,14 +398,15 @@ def _one_pass(scen, objs, which, on_draw=None):
                 if on_draw is not None:
                     on_draw(k, op, out[-1])
                 continue
+            n_arg = np.int64(op["n"]) if (k % 5 == 3) else op["n"]
             if rs["kind"] == "none":
                 seams.pin_global(rs["pin"])
-                x = obj.draw_sample(op["n"])
+                x = obj.draw_sample(n_arg)
             elif rs["kind"] == "int":
                 seed = {"int": int, "np.int64": np.int64, "np.uint32": np.uint32}[rs.get("type", "int")](rs["seed"])
-                x = obj.draw_sample(op["n"], random_state=seed)
+                x = obj.draw_sample(n_arg, random_state=seed)
             else:
-                x = obj.draw_sample(op["n"], random_state=gens[rs["gen"]])
+                x = obj.draw_sample(n_arg, random_state=gens[rs["gen"]])
             out.append(np.asarray(x))
         except Exception as e:  # noqa: BLE001 - an exception from the sampler is an outcome of the run
             raise DrawRaised(k, e)
@@ -424,6 +451,19 @@ def _execute(prop, scen):
                     raise StopRun()
                 return
             sl = scen["slots"][op["slot"]]
+            if op["op"] == "xdraw":
+                run.event("xdraw", [op["slot"], op["n"], op["params"]], x)
+                if np.asarray(x).shape != (op["n"],):
+                    run.violate("I1-shape", "dist/explicit-parameters", {"shape": list(np.asarray(x).shape), "n": op["n"]})
+                    raise StopRun()
+                xx = _wrap_vm(x, op["params"]["mu"]) if sl["family"] == "VonMises" else x
+                with np.errstate(all="ignore"):
+                    u = np.asarray(ref_frozen(sl["family"], op["params"]).cdf(xx), dtype=float)
+                run.count("dkw_comparisons")
+                if not _ks(u) <= eps_dkw(op["n"]):
+                    run.violate("I2-univariate-law", f"{sl['family']}/explicit-parameters", {"n": op["n"], "sup_distance": _ks(u), "eps_dkw": eps_dkw(op["n"]), "explicit": op["params"], "own": sl["params"]})
+                    raise StopRun()
+                return
             run.event("draw", [op["slot"], op["n"], op["rs"]], x)
             if not check_shape_support(run, sl, objs[op["slot"]], x, op["n"]):
                 raise StopRun()
@@ -447,11 +487,21 @@ def _execute(prop, scen):
             run.count("probe:parameters-changed-between-draws", n_mut)
         # ---- seeding relations within pass A --------------------------------------------------------
         epoch = {}
+        cloned = set()
+        unpinned = set()  # draw ops whose random_state=None no longer reads the global RNG
         draws = []
         for k, (op, x) in enumerate(zip(scen["ops"], A)):
-            if op["op"] == "mutate":
+            if op["op"] in ("mutate", "clone"):
                 epoch[op["slot"]] = epoch.get(op["slot"], 0) + 1
+            if op["op"] == "clone":
+                cloned.add(op["slot"])
             if op["op"] == "draw":
+                if op["rs"]["kind"] == "none" and op["slot"] in cloned:
+                    # A deep copy of a scipy-backed distribution carries a private *copy* of the global
+                    # RandomState (scipy's rv_generic._random_state), so an unseeded draw from the copy
+                    # depends on the global state at copy time - nothing the property speaks about.
+                    unpinned.add(k)
+                    continue
                 draws.append((k, op, x, epoch.get(op["slot"], 0)))
         for a in range(len(draws)):
             ka, oa, xa, ea = draws[a]
@@ -480,12 +530,12 @@ def _execute(prop, scen):
                         run.violate("I3-generator-state-advances", scen["slots"][oa["slot"]]["kind"], {"ops": [ka, kb], "n": oa["n"]})
                         return run
         # ---- pass B: identically seeded Generators, different global-RNG skews -----------
-        has_mut = any(o["op"] == "mutate" for o in scen["ops"])
+        has_mut = any(o["op"] in ("mutate", "clone") for o in scen["ops"])
         seams.pin_global(core.h64(scen["seed"], "build"))
         objsB = [build_slot(s) for s in scen["slots"]] if (scen["seed"] % 2 or has_mut) else objs
         B = _one_pass(scen, objsB, "B")
         for k, (op, xa, xb) in enumerate(zip(scen["ops"], A, B)):
-            if op["op"] in ("skew", "mutate"):
+            if op["op"] in ("skew", "mutate", "clone") or k in unpinned:
                 continue
             run.count("replay_comparisons")
             if xa.shape != xb.shape or not np.array_equal(xa, xb):
